@@ -117,13 +117,23 @@ def h_kkt(E, shape):
     hent = []
     for a in range(n):
         for b in range(a, n):
-            if shape.get("hdiag_only") and a != b:
+            if (shape.get("hdiag_only") and a != b) or shape.get("no_hess"):
                 continue
             v = mag(E, f"H{a}_{b}", W0)
             hent.append((a, b, v))
             if a != b:
                 hent.append((b, a, v))
-    jent = [(i, j, mag(E, f"J{i}_{j}", W0)) for i in range(m) for j in range(n)]
+    if shape.get("jrange"):
+        # non-zero Jacobian entries of either sign with magnitude in [lo, hi)
+        lo, hi = shape["jrange"]
+        jent = []
+        for i in range(m):
+            for j in range(n):
+                v = E.real(f"J{i}_{j}")
+                E.assume(land(sabs(v) >= lo, sabs(v) < hi))
+                jent.append((i, j, v))
+    else:
+        jent = [(i, j, mag(E, f"J{i}_{j}", W0)) for i in range(m) for j in range(n)]
     Hm = common.make_sparse(shape.get("fmt", "coo"), (n, n), hent)
     Jm = common.make_sparse(shape.get("fmt", "coo"), (m, n), jent)
     old = scale.np
@@ -131,6 +141,13 @@ def h_kkt(E, shape):
     snaps = common.snapshot([("hessian", Hm), ("jacobian", Jm)])
     try:
         sc = scale.Scaling.from_equilibrated_kkt(Hm, Jm)
+    except Exception as e:
+        if type(e) is Exception and "Equilibration failed to converge" in str(e):
+            # the equilibration did not return: allowed by the statement ("whenever it returns")
+            E.prove(True, "C20.nonconvergence_is_an_error_not_a_scaling")
+            common.check_snapshots(E, snaps, "C11.scaling_inputs_unchanged")
+            return
+        raise
     finally:
         scale.np = old
     common.check_snapshots(E, snaps, "C11.scaling_inputs_unchanged")
